@@ -783,8 +783,8 @@ def IsDecoded5 (q d' : Int) : Prop := (d' - q * 10000).natAbs ≤ 1
 def durBound : Int := 1000000000000000
 
 /-- The float envelope of DESIGN §2, as a proposition about the soft-float functions
-    above (validated by the T2 stream on boundary-heavy generators; part of the trusted
-    base until proved).
+    above (validated by the T2 stream on boundary-heavy generators; PROVED in
+    `Hls/Playlist/FloatLemmas.lean`: `floatEnvelope`, `floatEnvelope3`).
     * `fmt`: formatting a duration prints a nearest multiple of 10 µs (ties either way),
       in canonical `dec5` form (durations in [-5000 ns, -1 ns] print as "-0.00000" and are
       excluded: they have no canonical form);
